@@ -1,2 +1,713 @@
+(* Revision/Proofs.v — lemmas about the model of rhp/contracts.go (patched).  *)
+From Coq Require Import Lia ZifyBool ZifyN ZifyNat.
 From HostdBase Require Import Base.
 From HostdRevision Require Import Model.
+Local Open Scope N_scope.
+
+(** * vocabulary of the statements *)
+
+(* sum of the output values, unbounded *)
+Definition sumv (l : list output) : N := fold_right (fun o a => oval o + a) 0 l.
+
+(* value of output i (0 when there is none) *)
+Definition val_at (l : list output) (i : nat) : N :=
+  match nth_error l i with Some o => oval o | None => 0 end.
+
+Definition vr (r : rev) := val_at (rvalid r) 0.     (* renter valid payout *)
+Definition vh (r : rev) := val_at (rvalid r) 1.     (* host valid payout *)
+Definition mr (r : rev) := val_at (rmissed r) 0.    (* renter missed payout *)
+Definition mh (r : rev) := val_at (rmissed r) 1.    (* host missed payout *)
+Definition mvoid (r : rev) := val_at (rmissed r) 2. (* void (burn) output *)
+
+(* Go's types: Currency is 128 bit, revision numbers and heights 64 bit *)
+Definition inrange (r : rev) : Prop :=
+  Forall (fun o => oval o < two128) (rvalid r) /\ Forall (fun o => oval o < two128) (rmissed r).
+
+(* shape of a contract the host stores: renter+host valid outputs, renter+host+void missed *)
+Definition shape23 (r : rev) : Prop := length (rvalid r) = 2%nat /\ length (rmissed r) = 3%nat.
+(* ... whose valid and missed payouts have the same sum (consensus rule for file contracts) *)
+Definition wf (r : rev) : Prop := shape23 r /\ sumv (rvalid r) = sumv (rmissed r).
+
+(* what every accepted standard revision satisfies *)
+Record std_ok (cur rv : rev) : Prop := {
+  so_num    : rnum cur < rnum rv;
+  so_uh     : ruh rv = ruh cur;
+  so_uc     : ruc rv = ruc cur;
+  so_ws     : rws rv = rws cur;
+  so_we     : rwe rv = rwe cur;
+  so_nvalid : length (rvalid rv) = length (rvalid cur);
+  so_nmissed: length (rmissed rv) = length (rmissed cur);
+  so_two_v  : (2 <= length (rvalid cur))%nat;
+  so_two_m  : (2 <= length (rmissed cur))%nat;
+  so_vaddr  : map oaddr (rvalid rv) = map oaddr (rvalid cur);
+  so_maddr  : map oaddr (rmissed rv) = map oaddr (rmissed cur);
+  so_vsum   : sumv (rvalid rv) = sumv (rvalid cur);
+  so_msum   : sumv (rmissed rv) = sumv (rvalid cur);
+  so_bound  : sumv (rvalid cur) < two128;
+  so_vr     : vr rv <= vr cur;
+  so_mr     : mr rv <= mr cur;
+  so_eq     : vr rv = mr rv
+}.
+
+(** * arithmetic helpers *)
+
+Lemma cadd_o_false : forall a b s, cadd_o a b = (s, false) -> s = a + b /\ a + b < two128.
+Proof.
+  unfold cadd_o; intros a b s H; inversion H as [[Hs Hov]]; clear H.
+  apply N.leb_gt in Hov. split; [apply N.mod_small|]; lia.
+Qed.
+
+Lemma cadd_o_true : forall a b s, cadd_o a b = (s, true) -> two128 <= a + b.
+Proof. unfold cadd_o; intros a b s H; inversion H as [[Hs Hov]]; lia. Qed.
+
+Lemma two128_pos : 0 < two128. Proof. reflexivity. Qed.
+
+Lemma csub_u_false : forall a b d, a < two128 -> csub_u a b = (d, false) -> b <= a /\ d = a - b.
+Proof.
+  unfold csub_u; intros a b d Ha H; inversion H as [[Hd Hu]]; clear H.
+  assert (b <= a) by lia. split; [assumption|].
+  replace (a + two128 - b) with ((a - b) + 1 * two128) by lia.
+  rewrite N.mod_add by (pose proof two128_pos; lia). apply N.mod_small; lia.
+Qed.
+
+Lemma csub_u_true : forall a b d, csub_u a b = (d, true) -> a < b.
+Proof. unfold csub_u; intros a b d H; inversion H; lia. Qed.
+
+(** * lists *)
+
+Lemma sumv_cons : forall o l, sumv (o :: l) = oval o + sumv l.
+Proof. reflexivity. Qed.
+
+Lemma sumv_le_elem : forall l i, val_at l i <= sumv l.
+Proof.
+  induction l as [|o l IH]; intros i.
+  - unfold val_at. destruct i; cbn; lia.
+  - rewrite sumv_cons. destruct i as [|i].
+    + unfold val_at; cbn [nth_error]. lia.
+    + specialize (IH i). unfold val_at in *; cbn [nth_error]. lia.
+Qed.
+
+Lemma sum_o_ok : forall l acc s, sum_o acc l = Ok s -> s = acc + sumv l.
+Proof.
+  induction l as [|o l IH]; intros acc s H; cbn [sum_o] in H.
+  - inversion H; cbn; lia.
+  - destruct (cadd_o acc (oval o)) as [s' ov] eqn:E. destruct ov; [discriminate|].
+    apply cadd_o_false in E as [-> _]. apply IH in H. rewrite sumv_cons; lia.
+Qed.
+
+Lemma sum_o_bound : forall l acc s, acc < two128 -> sum_o acc l = Ok s -> s < two128.
+Proof.
+  induction l as [|o l IH]; intros acc s Ha H; cbn [sum_o] in H.
+  - inversion H; subst; assumption.
+  - destruct (cadd_o acc (oval o)) as [s' ov] eqn:E. destruct ov; [discriminate|].
+    apply cadd_o_false in E as [-> Hb]. eapply IH; eauto.
+Qed.
+
+Lemma sum_o_no_panic : forall l acc, sum_o acc l <> Panic.
+Proof.
+  induction l as [|o l IH]; intros acc; cbn [sum_o]; [discriminate|].
+  destruct (cadd_o acc (oval o)) as [s' ov]. destruct ov; [discriminate|apply IH].
+Qed.
+
+Lemma addr_sum_ok : forall revs curs acc s,
+  length revs = length curs -> addr_sum acc revs curs = Ok s ->
+  map oaddr revs = map oaddr curs /\ s = acc + sumv revs.
+Proof.
+  induction revs as [|r revs IH]; intros [|c curs] acc s Hl H; cbn [addr_sum] in H; try discriminate Hl.
+  - inversion H; cbn; split; [reflexivity|lia].
+  - destruct (negb (oaddr r =? oaddr c)) eqn:Ea; [discriminate|].
+    destruct (cadd_o acc (oval r)) as [s' ov] eqn:E. destruct ov; [discriminate|].
+    apply cadd_o_false in E as [-> _]. apply IH in H as [Hm ->]; [|cbn in Hl; lia].
+    split; [cbn [map]; f_equal; [lia|assumption] | rewrite sumv_cons; lia].
+Qed.
+
+Lemma addr_sum_bound : forall revs curs acc s,
+  acc < two128 -> addr_sum acc revs curs = Ok s -> s < two128.
+Proof.
+  induction revs as [|r revs IH]; intros [|c curs] acc s Ha H; cbn [addr_sum] in H; try discriminate.
+  - inversion H; subst; assumption.
+  - inversion H; subst; assumption.
+  - destruct (negb (oaddr r =? oaddr c)); [discriminate|].
+    destruct (cadd_o acc (oval r)) as [s' ov] eqn:E. destruct ov; [discriminate|].
+    apply cadd_o_false in E as [-> Hb]. eapply IH; eauto.
+Qed.
+
+Lemma addr_sum_no_panic : forall revs curs acc,
+  (length revs <= length curs)%nat -> addr_sum acc revs curs <> Panic.
+Proof.
+  induction revs as [|r revs IH]; intros [|c curs] acc Hl; cbn [addr_sum]; try discriminate.
+  - cbn in Hl; lia.
+  - destruct (negb (oaddr r =? oaddr c)); [discriminate|].
+    destruct (cadd_o acc (oval r)) as [s' ov]. destruct ov; [discriminate|].
+    apply IH; cbn in Hl; lia.
+Qed.
+
+Lemma len_ge2 : forall (l : list output), (2 <= length l)%nat -> exists a b t, l = a :: b :: t.
+Proof. intros [|a [|b t]] H; cbn in H; try lia; eauto. Qed.
+
+Lemma len_eq2 : forall (l : list output), length l = 2%nat -> exists a b, l = [a; b].
+Proof. intros [|a [|b [|c t]]] H; cbn in H; try lia; eauto. Qed.
+
+Lemma len_eq3 : forall (l : list output), length l = 3%nat -> exists a b c, l = [a; b; c].
+Proof. intros [|a [|b [|c [|d t]]]] H; cbn in H; try lia; eauto. Qed.
+
+Lemma nth_out_ok : forall l i o, nth_out l i = Ok o -> nth_error l i = Some o.
+Proof. unfold nth_out; intros l i o H; destruct (nth_error l i); inversion H; reflexivity. Qed.
+
+Lemma nth_out_val : forall l i o, nth_out l i = Ok o -> oval o = val_at l i.
+Proof. intros l i o H; apply nth_out_ok in H; unfold val_at; rewrite H; reflexivity. Qed.
+
+Lemma nth_out_lt : forall l i, (i < length l)%nat -> exists o, nth_out l i = Ok o.
+Proof.
+  intros l i H; unfold nth_out. destruct (nth_error l i) eqn:E; [eauto|].
+  apply nth_error_None in E; lia.
+Qed.
+
+Lemma nth_out_not_err : forall l i e, nth_out l i <> Err e.
+Proof. unfold nth_out; intros l i e; destruct (nth_error l i); discriminate. Qed.
+
+Lemma val_at_inrange : forall l i, Forall (fun o => oval o < two128) l -> val_at l i < two128.
+Proof.
+  intros l i H; unfold val_at. destruct (nth_error l i) eqn:E; [|reflexivity].
+  apply nth_error_In in E. rewrite Forall_forall in H. apply H; assumption.
+Qed.
+
+(** accessor facts, in terms of [val_at] *)
+Lemma acc_ok : forall l i x, (do o <- nth_out l i; Ok (oval o)) = Ok x -> x = val_at l i /\ (i < length l)%nat.
+Proof.
+  intros l i x H. destruct (nth_out l i) eqn:E; cbn [bind] in H; try discriminate.
+  inversion H; subst. split; [apply nth_out_val; assumption|].
+  apply nth_out_ok in E. apply nth_error_Some. congruence.
+Qed.
+
+Lemma acc_eval : forall l i, (i < length l)%nat -> (do o <- nth_out l i; Ok (oval o)) = Ok (val_at l i).
+Proof.
+  intros l i H. destruct (nth_out_lt l i H) as [o E]. rewrite E; cbn [bind].
+  f_equal; apply nth_out_val; assumption.
+Qed.
+
+Lemma valid_renter_eval : forall r, (2 <= length (rvalid r))%nat -> valid_renter r = Ok (vr r).
+Proof. intros; apply acc_eval; lia. Qed.
+Lemma valid_host_eval : forall r, (2 <= length (rvalid r))%nat -> valid_host r = Ok (vh r).
+Proof. intros; apply acc_eval; lia. Qed.
+Lemma missed_renter_eval : forall r, (2 <= length (rmissed r))%nat -> missed_renter r = Ok (mr r).
+Proof. intros; apply acc_eval; lia. Qed.
+Lemma missed_host_eval : forall r, (2 <= length (rmissed r))%nat -> missed_host r = Ok (mh r).
+Proof. intros; apply acc_eval; lia. Qed.
+Lemma void_eval : forall r, (3 <= length (rmissed r))%nat -> nth_out (rmissed r) 2 = Ok (nth 2 (rmissed r) (O 0 0)) /\ oval (nth 2 (rmissed r) (O 0 0)) = mvoid r.
+Proof.
+  intros r H. destruct (nth_out_lt (rmissed r) 2) as [o E]; [lia|].
+  pose proof (nth_out_val _ _ _ E) as Hv. apply nth_out_ok in E.
+  rewrite (nth_error_nth _ _ (O 0 0) E). unfold nth_out; rewrite E. split; [reflexivity|exact Hv].
+Qed.
+
+(** * validateStdRevision *)
+
+(* turns a chain of checks [H : (if c then bad else ...) = Ok _] into its facts *)
+Ltac chk H :=
+  match type of H with
+  | (if ?b then _ else _) = Ok _ =>
+      let E := fresh "C" in destruct b eqn:E; [discriminate H|]
+  end.
+
+Lemma validate_std_sound : forall cur rv, validate_std cur rv = Ok tt -> std_ok cur rv.
+Proof.
+  intros cur rv H. unfold validate_std, bad in H.
+  chk H. chk H. chk H. chk H.
+  assert (Lv : length (rvalid rv) = length (rvalid cur)) by lia.
+  assert (Lm : length (rmissed rv) = length (rmissed cur)) by lia.
+  assert (L2v : (2 <= length (rvalid cur))%nat) by lia.
+  assert (L2m : (2 <= length (rmissed cur))%nat) by lia.
+  destruct (sum_o 0 (rvalid cur)) as [oldp| |] eqn:Eo; cbn [bind] in H; try discriminate.
+  destruct (addr_sum 0 (rvalid rv) (rvalid cur)) as [vp| |] eqn:Ev; cbn [bind] in H; try discriminate.
+  destruct (addr_sum 0 (rmissed rv) (rmissed cur)) as [mp| |] eqn:Em; cbn [bind] in H; try discriminate.
+  chk H. chk H. chk H. chk H. chk H. chk H. chk H.
+  rewrite (valid_renter_eval rv), (valid_renter_eval cur), (missed_renter_eval rv), (missed_renter_eval cur) in H by lia.
+  cbn [bind] in H. chk H. chk H. chk H.
+  pose proof (sum_o_ok _ _ _ Eo) as So. pose proof (sum_o_bound _ 0 _ two128_pos Eo) as Sb.
+  apply addr_sum_ok in Ev as [Av Sv]; [|assumption].
+  apply addr_sum_ok in Em as [Am Sm]; [|assumption].
+  constructor; try assumption; try lia.
+Qed.
+
+Lemma validate_std_no_panic : forall cur rv, validate_std cur rv <> Panic.
+Proof.
+  intros cur rv. unfold validate_std, bad.
+  destruct (negb (length (rvalid rv) =? length (rvalid cur))%nat) eqn:C1; [discriminate|].
+  destruct (negb (length (rmissed rv) =? length (rmissed cur))%nat) eqn:C2; [discriminate|].
+  destruct (length (rvalid cur) <? 2)%nat eqn:C3; [discriminate|].
+  destruct (length (rmissed cur) <? 2)%nat eqn:C4; [discriminate|].
+  destruct (sum_o 0 (rvalid cur)) as [oldp| |] eqn:Eo; cbn [bind]; try discriminate;
+    [|exfalso; eapply sum_o_no_panic; eauto].
+  destruct (addr_sum 0 (rvalid rv) (rvalid cur)) as [vp| |] eqn:Ev; cbn [bind]; try discriminate;
+    [|exfalso; eapply addr_sum_no_panic; [|eauto]; lia].
+  destruct (addr_sum 0 (rmissed rv) (rmissed cur)) as [mp| |] eqn:Em; cbn [bind]; try discriminate;
+    [|exfalso; eapply addr_sum_no_panic; [|eauto]; lia].
+  repeat match goal with |- (if ?b then _ else _) <> Panic => destruct b; [discriminate|] end.
+  rewrite (valid_renter_eval rv), (valid_renter_eval cur), (missed_renter_eval rv), (missed_renter_eval cur) by lia.
+  cbn [bind].
+  destruct (vr cur <? vr rv); [discriminate|].
+  destruct (mr cur <? mr rv); [discriminate|].
+  destruct (negb (vr rv =? mr rv)); discriminate.
+Qed.
+
+(** * consequences of [std_ok] *)
+
+Lemma std_ok_range : forall cur rv, std_ok cur rv ->
+  vr cur < two128 /\ vh cur < two128 /\ vr rv < two128 /\ vh rv < two128 /\
+  mr rv < two128 /\ mh rv < two128 /\ mvoid rv < two128.
+Proof.
+  intros cur rv S. destruct S.
+  pose proof (sumv_le_elem (rvalid cur) 0). pose proof (sumv_le_elem (rvalid cur) 1).
+  pose proof (sumv_le_elem (rvalid rv) 0). pose proof (sumv_le_elem (rvalid rv) 1).
+  pose proof (sumv_le_elem (rmissed rv) 0). pose proof (sumv_le_elem (rmissed rv) 1).
+  pose proof (sumv_le_elem (rmissed rv) 2).
+  unfold vr, vh, mr, mh, mvoid. repeat split; lia.
+Qed.
+
+(* an accepted standard revision of a well-formed contract is well-formed again and keeps
+   the missed sum too *)
+Lemma std_ok_preserves_wf : forall cur rv, wf cur -> std_ok cur rv ->
+  wf rv /\ sumv (rmissed rv) = sumv (rmissed cur).
+Proof.
+  intros cur rv [[Hv Hm] Hs] S. destruct S.
+  unfold wf, shape23. repeat split; lia.
+Qed.
+
+(* an accepted standard revision establishes equal sums whatever the current one was *)
+Lemma std_ok_equal_sums : forall cur rv, std_ok cur rv -> sumv (rvalid rv) = sumv (rmissed rv).
+Proof. intros cur rv S; destruct S; lia. Qed.
+
+(* with two valid outputs: what the renter loses is what the host gains *)
+Lemma shape2_sum : forall l, length l = 2%nat -> sumv l = val_at l 0 + val_at l 1.
+Proof. intros l H. destruct (len_eq2 l H) as (a & b & ->). unfold val_at; cbn. lia. Qed.
+
+Lemma shape3_sum : forall l, length l = 3%nat -> sumv l = val_at l 0 + val_at l 1 + val_at l 2.
+Proof. intros l H. destruct (len_eq3 l H) as (a & b & c & ->). unfold val_at; cbn. lia. Qed.
+
+(** * ValidateRevision *)
+
+Ltac step H :=
+  match type of H with
+  | (if ?b then _ else _) = Ok _ =>
+      let E := fresh "C" in destruct b eqn:E; [discriminate H|]
+  | (let '(_, _) := ?p in _) = Ok _ =>
+      let x := fresh "d" in let u := fresh "u" in let E := fresh "S" in
+      destruct p as [x u] eqn:E; destruct u; [discriminate H|]
+  end.
+
+Lemma validate_revision_sound : forall cur rv payment collateral transfer burn,
+  mh cur < two128 ->
+  validate_revision cur rv payment collateral = Ok (transfer, burn) ->
+  std_ok cur rv /\
+  payment <= vr cur /\ payment <= mr cur /\ collateral <= mh cur /\
+  vh rv = vh cur + transfer /\ vr cur = vr rv + transfer /\ payment <= transfer /\
+  mh cur = mh rv + burn /\ burn <= collateral.
+Proof.
+  intros cur rv payment collateral transfer burn Rmh H. unfold validate_revision, bad in H.
+  destruct (validate_std cur rv) as [[]| |] eqn:Es; cbn [bind] in H; try discriminate.
+  apply validate_std_sound in Es. pose proof (std_ok_range _ _ Es) as (R1 & R2 & R3 & R4 & R5 & R6 & R7).
+  pose proof Es as S; destruct S.
+  rewrite (valid_renter_eval rv), (valid_renter_eval cur), (missed_renter_eval cur),
+    (valid_host_eval rv), (valid_host_eval cur), (missed_host_eval rv), (missed_host_eval cur) in H by lia.
+  cbn [bind] in H.
+  step H. step H. step H. step H. step H. step H. step H. step H. step H.
+  inversion H; subst; clear H.
+  apply csub_u_false in S as [? ->]; [|assumption].
+  apply csub_u_false in S0 as [? ->]; [|assumption].
+  apply csub_u_false in S1 as [? ->]; [|assumption].
+  split; [assumption|]. lia.
+Qed.
+
+Lemma validate_revision_no_panic : forall cur rv payment collateral,
+  validate_revision cur rv payment collateral <> Panic.
+Proof.
+  intros cur rv payment collateral. unfold validate_revision, bad.
+  destruct (validate_std cur rv) as [[]| |] eqn:Es; cbn [bind]; try discriminate;
+    [|exfalso; eapply validate_std_no_panic; eauto].
+  apply validate_std_sound in Es. destruct Es.
+  rewrite (valid_renter_eval rv), (valid_renter_eval cur), (missed_renter_eval cur),
+    (valid_host_eval rv), (valid_host_eval cur), (missed_host_eval rv), (missed_host_eval cur) by lia.
+  cbn [bind].
+  repeat match goal with
+  | |- (if ?b then _ else _) <> Panic => destruct b; [discriminate|]
+  | |- (let '(_, _) := ?p in _) <> Panic => destruct p as [? []]; [discriminate|]
+  end.
+  discriminate.
+Qed.
+
+(** * ValidateProgramRevision *)
+
+Lemma validate_program_sound : forall cur rv storage collateral burn,
+  mh cur < two128 ->
+  validate_program cur rv storage collateral = Ok burn ->
+  std_ok cur rv /\ (3 <= length (rmissed cur))%nat /\
+  mh cur = mh rv + burn /\ burn <= storage + collateral /\
+  mvoid rv = mvoid cur + burn /\
+  vr rv = vr cur /\ vh rv = vh cur /\ mr rv = mr cur.
+Proof.
+  intros cur rv storage collateral burn Rmh H. unfold validate_program, bad in H.
+  destruct (validate_std cur rv) as [[]| |] eqn:Es; cbn [bind] in H; try discriminate.
+  apply validate_std_sound in Es. pose proof (std_ok_range _ _ Es) as (R1 & R2 & R3 & R4 & R5 & R6 & R7).
+  pose proof Es as S; destruct S.
+  step H.
+  assert (L3 : (3 <= length (rmissed cur))%nat) by lia.
+  destruct (void_eval rv) as [Ev1 Ev2]; [lia|]. destruct (void_eval cur) as [Ec1 Ec2]; [lia|].
+  rewrite (valid_renter_eval rv), (valid_renter_eval cur), (missed_renter_eval cur), (missed_renter_eval rv),
+    (valid_host_eval rv), (valid_host_eval cur), (missed_host_eval rv), (missed_host_eval cur), Ev1, Ec1 in H by lia.
+  cbn [bind] in H. rewrite Ev2, Ec2 in H.
+  step H. step H. step H. step H. step H. step H. step H. step H.
+  inversion H; subst; clear H.
+  apply csub_u_false in S as [? ->]; [|assumption].
+  apply csub_u_false in S1 as [? ->]; [|assumption].
+  apply cadd_o_false in S0 as [-> ?].
+  split; [assumption|]. lia.
+Qed.
+
+Lemma validate_program_no_panic : forall cur rv storage collateral,
+  validate_program cur rv storage collateral <> Panic.
+Proof.
+  intros cur rv storage collateral. unfold validate_program, bad.
+  destruct (validate_std cur rv) as [[]| |] eqn:Es; cbn [bind]; try discriminate;
+    [|exfalso; eapply validate_std_no_panic; eauto].
+  apply validate_std_sound in Es. destruct Es.
+  destruct (length (rmissed cur) <? 3)%nat eqn:C3; [discriminate|].
+  destruct (void_eval rv) as [Ev1 Ev2]; [lia|]. destruct (void_eval cur) as [Ec1 Ec2]; [lia|].
+  rewrite (valid_renter_eval rv), (valid_renter_eval cur), (missed_renter_eval cur), (missed_renter_eval rv),
+    (valid_host_eval rv), (valid_host_eval cur), (missed_host_eval rv), (missed_host_eval cur), Ev1, Ec1 by lia.
+  cbn [bind].
+  repeat match goal with
+  | |- (if ?b then _ else _) <> Panic => destruct b; [discriminate|]
+  | |- (let '(_, _) := ?p in _) <> Panic => destruct p as [? []]; [discriminate|]
+  end.
+  discriminate.
+Qed.
+
+(** * ValidatePaymentRevision *)
+
+Lemma validate_payment_sound : forall cur rv payment,
+  mr cur < two128 ->
+  validate_payment cur rv payment = Ok tt ->
+  std_ok cur rv /\
+  payment <= vr cur /\ payment <= mr cur /\
+  vr cur = vr rv + payment /\ mr cur = mr rv + payment /\
+  vh rv = vh cur + payment /\ mh rv = mh cur + payment.
+Proof.
+  intros cur rv payment Rmr H. unfold validate_payment, bad in H.
+  destruct (validate_std cur rv) as [[]| |] eqn:Es; cbn [bind] in H; try discriminate.
+  apply validate_std_sound in Es. pose proof (std_ok_range _ _ Es) as (R1 & R2 & R3 & R4 & R5 & R6 & R7).
+  pose proof Es as S; destruct S.
+  rewrite (valid_renter_eval rv), (valid_renter_eval cur), (missed_renter_eval cur), (missed_renter_eval rv),
+    (valid_host_eval rv), (valid_host_eval cur), (missed_host_eval rv), (missed_host_eval cur) in H by lia.
+  cbn [bind] in H.
+  step H. step H. step H. step H. step H. step H. step H. step H.
+  apply csub_u_false in S as [? ->]; [|assumption].
+  apply csub_u_false in S0 as [? ->]; [|assumption].
+  apply cadd_o_false in S1 as [-> ?]. apply cadd_o_false in S2 as [-> ?].
+  split; [assumption|]. lia.
+Qed.
+
+Lemma validate_payment_no_panic : forall cur rv payment, validate_payment cur rv payment <> Panic.
+Proof.
+  intros cur rv payment. unfold validate_payment, bad.
+  destruct (validate_std cur rv) as [[]| |] eqn:Es; cbn [bind]; try discriminate;
+    [|exfalso; eapply validate_std_no_panic; eauto].
+  apply validate_std_sound in Es. destruct Es.
+  rewrite (valid_renter_eval rv), (valid_renter_eval cur), (missed_renter_eval cur), (missed_renter_eval rv),
+    (valid_host_eval rv), (valid_host_eval cur), (missed_host_eval rv), (missed_host_eval cur) by lia.
+  cbn [bind].
+  repeat match goal with
+  | |- (if ?b then _ else _) <> Panic => destruct b; [discriminate|]
+  | |- (let '(_, _) := ?p in _) <> Panic => destruct p as [? []]; [discriminate|]
+  end.
+  discriminate.
+Qed.
+
+Lemma sumv_bound_forall : forall l, sumv l < two128 -> Forall (fun o => oval o < two128) l.
+Proof.
+  induction l as [|o l IH]; intros H; constructor; rewrite sumv_cons in H; [lia|apply IH; lia].
+Qed.
+
+Lemma std_ok_inrange : forall cur rv, std_ok cur rv -> inrange rv.
+Proof.
+  intros cur rv S; destruct S. split; apply sumv_bound_forall; lia.
+Qed.
+
+Lemma inrange_vals : forall r, inrange r ->
+  vr r < two128 /\ vh r < two128 /\ mr r < two128 /\ mh r < two128 /\ mvoid r < two128.
+Proof.
+  intros r [Hv Hm]. unfold vr, vh, mr, mh, mvoid. repeat split; apply val_at_inrange; assumption.
+Qed.
+
+(** * the property's conjunction for a standard revision
+   [price]: what the host's valid payout must at least gain; [maxburn]: what the host's
+   missed payout may at most lose *)
+Definition safe_revision (cur rv : rev) (price maxburn : N) : Prop :=
+  rnum cur < rnum rv /\
+  ruh rv = ruh cur /\ ruc rv = ruc cur /\
+  rws rv = rws cur /\ rwe rv = rwe cur /\
+  length (rvalid rv) = length (rvalid cur) /\ length (rmissed rv) = length (rmissed cur) /\
+  map oaddr (rvalid rv) = map oaddr (rvalid cur) /\ map oaddr (rmissed rv) = map oaddr (rmissed cur) /\
+  sumv (rvalid rv) = sumv (rvalid cur) /\ sumv (rmissed rv) = sumv (rmissed cur) /\
+  vr rv <= vr cur /\ mr rv <= mr cur /\
+  vh cur + price <= vh rv /\
+  mh cur <= mh rv + maxburn.
+
+Lemma std_ok_safe : forall cur rv price maxburn,
+  wf cur -> std_ok cur rv -> vh cur + price <= vh rv -> mh cur <= mh rv + maxburn ->
+  safe_revision cur rv price maxburn /\ wf rv.
+Proof.
+  intros cur rv price maxburn W S Hp Hb.
+  destruct (std_ok_preserves_wf _ _ W S) as [W' Ms]. destruct S.
+  unfold safe_revision. repeat split; try assumption; try lia; apply W'.
+Qed.
+
+Lemma validate_revision_safe : forall cur rv payment collateral transfer burn,
+  wf cur -> inrange cur ->
+  validate_revision cur rv payment collateral = Ok (transfer, burn) ->
+  safe_revision cur rv payment collateral /\
+  transfer = vh rv - vh cur /\ transfer = vr cur - vr rv /\ burn = mh cur - mh rv /\
+  payment <= transfer /\ burn <= collateral /\
+  wf rv /\ inrange rv.
+Proof.
+  intros cur rv payment collateral transfer burn W R H.
+  pose proof (inrange_vals _ R) as (_ & _ & _ & Rmh & _).
+  apply validate_revision_sound in H as (S & ? & ? & ? & ? & ? & ? & ? & ?); [|assumption].
+  destruct (std_ok_safe cur rv payment collateral W S) as [Sf W']; try lia.
+  split; [exact Sf|]. repeat (split; [lia|]).
+  split; [exact W'|eapply std_ok_inrange; eauto].
+Qed.
+
+Lemma validate_program_safe : forall cur rv storage collateral burn,
+  wf cur -> inrange cur ->
+  validate_program cur rv storage collateral = Ok burn ->
+  safe_revision cur rv 0 (storage + collateral) /\
+  burn = mh cur - mh rv /\ burn <= storage + collateral /\ mvoid rv = mvoid cur + burn /\
+  vr rv = vr cur /\ vh rv = vh cur /\ mr rv = mr cur /\
+  wf rv /\ inrange rv.
+Proof.
+  intros cur rv storage collateral burn W R H.
+  pose proof (inrange_vals _ R) as (_ & _ & _ & Rmh & _).
+  apply validate_program_sound in H as (S & ? & ? & ? & ? & ? & ? & ?); [|assumption].
+  destruct (std_ok_safe cur rv 0 (storage + collateral) W S) as [Sf W']; try lia.
+  split; [exact Sf|]. repeat (split; [lia|]).
+  split; [exact W'|eapply std_ok_inrange; eauto].
+Qed.
+
+Lemma validate_payment_safe : forall cur rv payment,
+  wf cur -> inrange cur ->
+  validate_payment cur rv payment = Ok tt ->
+  safe_revision cur rv payment 0 /\
+  vr rv = vr cur - payment /\ mr rv = mr cur - payment /\ payment <= vr cur /\ payment <= mr cur /\
+  vh rv = vh cur + payment /\ mh rv = mh cur + payment /\
+  wf rv /\ inrange rv.
+Proof.
+  intros cur rv payment W R H.
+  pose proof (inrange_vals _ R) as (_ & _ & Rmr & _ & _).
+  apply validate_payment_sound in H as (S & ? & ? & ? & ? & ? & ?); [|assumption].
+  destruct (std_ok_safe cur rv payment 0 W S) as [Sf W']; try lia.
+  split; [exact Sf|]. repeat (split; [lia|]).
+  split; [exact W'|eapply std_ok_inrange; eauto].
+Qed.
+
+(** * ValidateClearingRevision *)
+
+Lemma output_eta : forall a b : output, oaddr a = oaddr b -> oval a = oval b -> a = b.
+Proof. intros [] []; cbn; intros; subst; reflexivity. Qed.
+
+Lemma clearing_loop_ok : forall fv cv fm,
+  length fv = length cv -> length fv = length fm -> clearing_loop fv cv fm = Ok tt ->
+  fm = fv /\ map oaddr fv = map oaddr cv.
+Proof.
+  induction fv as [|v fv IH]; intros [|c cv] [|m fm] Lc Lm H; try discriminate Lc; try discriminate Lm.
+  - split; reflexivity.
+  - cbn [clearing_loop] in H. unfold bad in H.
+    destruct (negb (oaddr v =? oaddr c)) eqn:C1; [discriminate|].
+    destruct (negb (oaddr v =? oaddr m)) eqn:C2; [discriminate|].
+    destruct (negb (oval v =? oval m)) eqn:C3; [discriminate|].
+    apply IH in H as [-> Ha]; [|cbn in Lc; lia|cbn in Lm; lia].
+    split; [f_equal; apply output_eta; lia | cbn [map]; f_equal; [lia|assumption]].
+Qed.
+
+Lemma clearing_loop_no_panic : forall fv cv fm,
+  (length fv <= length cv)%nat -> (length fv <= length fm)%nat -> clearing_loop fv cv fm <> Panic.
+Proof.
+  induction fv as [|v fv IH]; intros [|c cv] [|m fm] Lc Lm; cbn [clearing_loop]; try discriminate;
+    cbn in Lc, Lm; try lia.
+  unfold bad. repeat match goal with |- (if ?b then _ else _) <> Panic => destruct b; [discriminate|] end.
+  apply IH; lia.
+Qed.
+
+(* the property's conjunction for a clearing revision *)
+Definition cleared (cur fin : rev) (payment : N) : Prop :=
+  rsize fin = 0 /\ rroot fin = 0 /\ rnum fin = max64 /\
+  rmissed fin = rvalid fin /\
+  ruh fin = ruh cur /\ ruc fin = ruc cur /\ rws fin = rws cur /\ rwe fin = rwe cur /\
+  length (rvalid fin) = 2%nat /\ length (rvalid cur) = 2%nat /\
+  map oaddr (rvalid fin) = map oaddr (rvalid cur) /\
+  sumv (rvalid fin) = sumv (rvalid cur) /\
+  vr fin <= vr cur /\ vh cur + payment <= vh fin.
+
+Lemma validate_clearing_sound : forall cur fin payment toHost,
+  inrange cur -> inrange fin ->
+  validate_clearing cur fin payment = Ok toHost ->
+  cleared cur fin payment /\ toHost = vh fin - vh cur /\ toHost = vr cur - vr fin /\ payment <= toHost.
+Proof.
+  intros cur fin payment toHost Rc Rf H. unfold validate_clearing, bad in H.
+  pose proof (inrange_vals _ Rc) as (Rvr & _). pose proof (inrange_vals _ Rf) as (_ & Rvh & _).
+  step H. step H. step H. step H. step H. step H. step H. step H. step H. step H.
+  assert (Lm : length (rmissed fin) = 2%nat) by lia.
+  assert (Lv : length (rvalid fin) = 2%nat) by lia.
+  assert (Lc : length (rvalid cur) = 2%nat) by lia.
+  rewrite (valid_renter_eval cur), (missed_renter_eval fin), (valid_host_eval fin), (valid_host_eval cur) in H by lia.
+  cbn [bind] in H. step H. step H. step H. step H.
+  destruct (clearing_loop (rvalid fin) (rvalid cur) (rmissed fin)) as [[]| |] eqn:El; cbn [bind] in H; try discriminate.
+  inversion H; subst; clear H.
+  apply clearing_loop_ok in El as [Em Ea]; [|lia|lia].
+  apply csub_u_false in S as [? ->]; [|assumption].
+  apply csub_u_false in S0 as [? Hd]; [|assumption].
+  assert (Hmr : mr fin = vr fin) by (unfold mr, vr; rewrite Em; reflexivity).
+  pose proof (shape2_sum _ Lv) as Sf. pose proof (shape2_sum _ Lc) as Sc.
+  unfold cleared. fold (vr fin) (vh fin) in Sf. fold (vr cur) (vh cur) in Sc.
+  repeat split; try assumption; try lia.
+Qed.
+
+Lemma validate_clearing_no_panic : forall cur fin payment, validate_clearing cur fin payment <> Panic.
+Proof.
+  intros cur fin payment. unfold validate_clearing, bad.
+  do 4 (match goal with |- (if ?b then _ else _) <> Panic => destruct b; [discriminate|] end).
+  destruct (negb (length (rmissed fin) =? 2)%nat) eqn:C1; [discriminate|].
+  destruct (negb (length (rvalid fin) =? length (rmissed fin))%nat) eqn:C2; [discriminate|].
+  destruct (negb (length (rvalid fin) =? length (rvalid cur))%nat) eqn:C3; [discriminate|].
+  do 3 (match goal with |- (if ?b then _ else _) <> Panic => destruct b; [discriminate|] end).
+  rewrite (valid_renter_eval cur), (missed_renter_eval fin), (valid_host_eval fin), (valid_host_eval cur) by lia.
+  cbn [bind].
+  repeat match goal with
+  | |- (if ?b then _ else _) <> Panic => destruct b; [discriminate|]
+  | |- (let '(_, _) := ?p in _) <> Panic => destruct p as [? []]; [discriminate|]
+  end.
+  destruct (clearing_loop (rvalid fin) (rvalid cur) (rmissed fin)) as [[]| |] eqn:El; cbn [bind]; try discriminate.
+  exfalso; eapply clearing_loop_no_panic; [| |eauto]; lia.
+Qed.
+
+(* a cleared contract cannot be revised again: nothing exceeds the maximum revision number *)
+Lemma cleared_is_final : forall cur rv,
+  rnum cur = max64 -> rnum rv <= max64 -> validate_std cur rv <> Ok tt.
+Proof.
+  intros cur rv Hc Hr H. apply validate_std_sound in H. destruct H. lia.
+Qed.
+
+(** * Revise / ClearingRevision *)
+
+Lemma with_values_ok : forall vals old l,
+  length vals = length old -> with_values old vals = Ok l ->
+  map oval l = vals /\ map oaddr l = map oaddr old.
+Proof.
+  induction vals as [|v vals IH]; intros [|o old] l L H; try discriminate L; cbn [with_values] in H.
+  - inversion H; split; reflexivity.
+  - destruct (with_values old vals) as [t| |] eqn:E; cbn [bind] in H; try discriminate.
+    inversion H; subst. apply IH in E as [E1 E2]; [|cbn in L; lia].
+    cbn [map oval oaddr]. rewrite E1, E2. split; reflexivity.
+Qed.
+
+Lemma with_values_total : forall vals old,
+  (length vals <= length old)%nat -> exists l, with_values old vals = Ok l.
+Proof.
+  induction vals as [|v vals IH]; intros [|o old] L; cbn [with_values]; cbn in L; try lia; eauto.
+  destruct (IH old) as [t ->]; [lia|]. cbn [bind]; eauto.
+Qed.
+
+(* only the revision number and the output values come from the renter *)
+Definition same_but_values (r r' : rev) : Prop :=
+  rother r' = rother r /\ ruc r' = ruc r /\ rws r' = rws r /\ rwe r' = rwe r /\ ruh r' = ruh r /\
+  map oaddr (rvalid r') = map oaddr (rvalid r).
+
+Lemma revise_sound : forall r num vs ms r',
+  revise r num vs ms = Ok r' ->
+  rnum r <> max64 /\ rnum r < num /\ rnum r' = num /\
+  map oval (rvalid r') = vs /\ map oval (rmissed r') = ms /\
+  same_but_values r r' /\ map oaddr (rmissed r') = map oaddr (rmissed r) /\
+  rsize r' = rsize r /\ rroot r' = rroot r.
+Proof.
+  intros r num vs ms r' H. unfold revise, bad in H.
+  step H. step H. step H. step H.
+  destruct (with_values (rvalid r) vs) as [v| |] eqn:Ev; cbn [bind] in H; try discriminate.
+  destruct (with_values (rmissed r) ms) as [m| |] eqn:Em; cbn [bind] in H; try discriminate.
+  inversion H; subst; clear H. cbn.
+  apply with_values_ok in Ev as [? ?]; [|lia]. apply with_values_ok in Em as [? ?]; [|lia].
+  unfold same_but_values; cbn. repeat split; try assumption; try lia.
+Qed.
+
+Lemma revise_no_panic : forall r num vs ms, revise r num vs ms <> Panic.
+Proof.
+  intros r num vs ms. unfold revise, bad.
+  destruct (rnum r =? max64); [discriminate|]. destruct (num <=? rnum r); [discriminate|].
+  destruct (negb (length vs =? length (rvalid r))%nat) eqn:C1; [discriminate|].
+  destruct (negb (length ms =? length (rmissed r))%nat) eqn:C2; [discriminate|].
+  destruct (with_values_total vs (rvalid r)) as [v ->]; [lia|].
+  destruct (with_values_total ms (rmissed r)) as [m ->]; [lia|].
+  cbn [bind]. discriminate.
+Qed.
+
+Lemma clearing_revision_sound : forall r vs r',
+  clearing_revision r vs = Ok r' ->
+  rnum r <> max64 /\ rnum r' = max64 /\ rsize r' = 0 /\ rroot r' = 0 /\
+  rmissed r' = rvalid r' /\ map oval (rvalid r') = vs /\ same_but_values r r'.
+Proof.
+  intros r vs r' H. unfold clearing_revision, bad in H.
+  step H. step H.
+  destruct (with_values (rvalid r) vs) as [v| |] eqn:Ev; cbn [bind] in H; try discriminate.
+  inversion H; subst; clear H. cbn.
+  apply with_values_ok in Ev as [? ?]; [|lia].
+  unfold same_but_values; cbn. repeat split; try assumption; try lia.
+Qed.
+
+Lemma clearing_revision_no_panic : forall r vs, clearing_revision r vs <> Panic.
+Proof.
+  intros r vs. unfold clearing_revision, bad.
+  destruct (rnum r =? max64); [discriminate|].
+  destruct (negb (length vs =? length (rvalid r))%nat) eqn:C1; [discriminate|].
+  destruct (with_values_total vs (rvalid r)) as [v ->]; [lia|].
+  cbn [bind]. discriminate.
+Qed.
+
+(* InitialRevision keeps the contract's outputs: the shape a formation was accepted with is
+   the shape of the first revision the host stores *)
+Lemma initial_revision_shape : forall fc other uc,
+  rvalid (initial_revision fc other uc) = rvalid fc /\ rmissed (initial_revision fc other uc) = rmissed fc /\
+  rnum (initial_revision fc other uc) = 1 /\
+  rws (initial_revision fc other uc) = rws fc /\ rwe (initial_revision fc other uc) = rwe fc /\
+  ruh (initial_revision fc other uc) = ruh fc /\ rsize (initial_revision fc other uc) = rsize fc /\
+  rroot (initial_revision fc other uc) = rroot fc.
+Proof. intros; cbn; repeat split. Qed.
+
+(** * every entry point together *)
+Lemma run_no_panic : forall c, run c <> Panic.
+Proof.
+  intros [cur rv|cur rv p k|cur rv s k|cur rv p|cur fin p|cur n vs ms|cur vs|fc o u]; cbn [run].
+  - pose proof (validate_std_no_panic cur rv). destruct (validate_std cur rv); cbn [bind]; congruence.
+  - pose proof (validate_revision_no_panic cur rv p k). destruct (validate_revision cur rv p k); cbn [bind]; congruence.
+  - pose proof (validate_program_no_panic cur rv s k). destruct (validate_program cur rv s k); cbn [bind]; congruence.
+  - pose proof (validate_payment_no_panic cur rv p). destruct (validate_payment cur rv p); cbn [bind]; congruence.
+  - pose proof (validate_clearing_no_panic cur fin p). destruct (validate_clearing cur fin p); cbn [bind]; congruence.
+  - pose proof (revise_no_panic cur n vs ms). destruct (revise cur n vs ms); cbn [bind]; congruence.
+  - pose proof (clearing_revision_no_panic cur vs). destruct (clearing_revision cur vs); cbn [bind]; congruence.
+  - discriminate.
+Qed.
+
+(** * non-vacuity *)
+Definition ex_cur : rev := R 1 0 4194304 1 100 200 [O 1 1000; O 2 500] [O 1 1000; O 2 400; O 0 100] 1 5.
+
+Lemma nonvacuous_ex :
+  wf ex_cur /\ inrange ex_cur
+  /\ validate_revision ex_cur (R 1 0 4194304 1 100 200 [O 1 990; O 2 510] [O 1 990; O 2 380; O 0 130] 1 6) 10 20 = Ok (10, 20)
+  /\ validate_program ex_cur (R 1 0 4194304 1 100 200 [O 1 1000; O 2 500] [O 1 1000; O 2 370; O 0 130] 1 6) 10 20 = Ok 30
+  /\ validate_payment ex_cur (R 1 0 4194304 1 100 200 [O 1 900; O 2 600] [O 1 900; O 2 500; O 0 100] 1 6) 100 = Ok tt
+  /\ validate_clearing ex_cur (R 1 0 0 0 100 200 [O 1 990; O 2 510] [O 1 990; O 2 510] 1 max64) 10 = Ok 10
+  /\ validate_revision ex_cur (R 1 0 4194304 1 100 200 [O 1 990; O 2 510] [O 1 990; O 2 380; O 0 130] 1 6) 11 20 = Err EInvalid.
+Proof.
+  split; [|split].
+  - unfold wf, shape23; cbn; repeat split; reflexivity.
+  - unfold inrange; cbn; split; repeat constructor.
+  - vm_compute; repeat split; reflexivity.
+Qed.
